@@ -54,6 +54,15 @@ def applied (u : Up) (d d' : Doc) : Prop :=
   (lookup d.opt (wkey u) = some (origVer u) ∧ lookup d'.opt (wkey u) = some (newVer u)) ∨
   (lookup d.prod (wkey u) = some (origVer u) ∧ lookup d'.prod (wkey u) = some (newVer u))
 
+/-- `Read` loses no entry: every entry of the three sections that `makeNPMReqVer` accepts is among the requirements under
+its own identity — the package together with the alias (the key of a `"bar": "npm:foo@…"` entry).  The version may be
+that of a later section (dev over optional over regular). -/
+def readComplete (d : Doc) (rs : List Req) : Bool :=
+  (d.dev ++ d.opt ++ d.prod).all fun e =>
+    match makeReq e with
+    | none => true
+    | some q => rs.any fun r => r.name = q.name && r.knownAs = q.knownAs
+
 def keyPresent (u : Up) (d : Doc) : Prop :=
   (lookup d.dev (wkey u)).isSome ∨ (lookup d.opt (wkey u)).isSome ∨ (lookup d.prod (wkey u)).isSome
 
